@@ -18,7 +18,11 @@ func debugFn(keys []string) {
 		os.Exit(2)
 	}
 	rep := core.NewReport("DBG", "quick", 0)
-	props.RunJobs(w, rep, props.SafetyJobs(w, rep, keys))
+	if contractMode {
+		props.RunJobs(w, rep, props.ContractJobs(w, rep, keys))
+	} else {
+		props.RunJobs(w, rep, props.SafetyJobs(w, rep, keys))
+	}
 	for f, r := range rep.Aborted {
 		fmt.Println("ABORTED", f, ":", r)
 	}
@@ -78,12 +82,15 @@ func debugCodec(keys []string) {
 	fmt.Printf("%d outcomes, %d discharged, %.1fs solver wall\n", len(rep.Outcomes), n, tot)
 }
 
+var contractMode bool
+
 func main() {
 	if len(os.Args) >= 3 && os.Args[1] == "codec" {
 		debugCodec(os.Args[2:])
 		return
 	}
-	if len(os.Args) >= 3 && os.Args[1] == "fn" {
+	if len(os.Args) >= 3 && (os.Args[1] == "fn" || os.Args[1] == "cfn") {
+		contractMode = os.Args[1] == "cfn"
 		debugFn(os.Args[2:])
 		return
 	}
